@@ -23,7 +23,7 @@ class KGen:
                  malformed: float = 0.06, wrong_state: float = 0.08, max_ctx: int = 8, max_tasks: int = 3,
                  td_depth: int = 2, gated: float = 0.35, exc_end: float = 0.4, many_callbacks: bool = False,
                  p_cancel: float = 0.0, p_pair: float = 0.25, p_manual: float = 0.0, p_mid: float = 0.0,
-                 p_cur_after: float = 0.0, p_defer: float = 0.0) -> None:
+                 p_cur_after: float = 0.0, p_defer: float = 0.0, p_again: float = 0.0, p_forget: float = 0.0) -> None:
         self.rng = rng
         self.w = dict(DEFAULT_WEIGHTS)
         if weights:
@@ -39,6 +39,10 @@ class KGen:
         self.p_mid = p_mid
         self.p_cur_after = p_cur_after
         self.p_defer = p_defer
+        self.p_again = p_again
+        self.p_forget = p_forget
+        self.injects: list[dict[str, Any]] = []     # injected calls made so far (their functions can be called again)
+        self.n_fns = 0
         self.deferred: list[list[Any]] = []      # [countdown, resume op] of lookups whose coroutine is awaited later
         self.queue: list[dict[str, Any]] = []
         self.p_pair = p_pair
@@ -341,6 +345,19 @@ class KGen:
             if not self.ctxs:
                 return None
             return {"op": "state", "t": t, "c": rng.choice(list(self.ctxs))}
+        if kind == "inject" and self.injects and rng.random() < self.p_again:
+            # a function that has been called before is called again, in whatever context is current now (a request
+            # handler serving one short-lived context after the other)
+            c = self.cur.get(t)
+            old = rng.choice(self.injects)
+            if not (old["async"] and c is not None and any(
+                    (d["ty"], d["name"]) in self.ctxs[c].get("gated_keys", ()) for d in old["deps"])):
+                import copy
+
+                again = copy.deepcopy(old)
+                again.pop("late", None)
+                again["t"] = t
+                return again
         if kind == "inject":
             c = self.cur.get(t)
             is_async = rng.random() < 0.5
@@ -378,6 +395,10 @@ class KGen:
                     self.n_pairs += 1
                     op["pair"], op["first"] = self.n_pairs, True
                     self.queue.append({**op, "t": rng.choice(others_t), "first": False})
+            if "pair" not in op and not op["badUnion"]:
+                self.n_fns += 1
+                op["fn"] = self.n_fns
+                self.injects.append(op)
             return op
         if kind == "decorate":
             ps = []
@@ -456,6 +477,8 @@ class KGen:
         ops += self.queue
         ops += self.closing_ops()
         ops += [d[1] for d in self.deferred]        # … the rest only after every block has been left
+        if self.p_forget:
+            ops = self.mark_forgotten(ops)
         # every async lookup gets its own label (suspended lookups are reported under it)
         for i, op in enumerate(ops):
             if op["op"] == "get":
@@ -466,6 +489,27 @@ class KGen:
             if op["op"] in ("cancelget", "resume"):
                 op["lid"] = lid_of.get(op.pop("gid"), 999)
         return ops
+
+    def mark_forgotten(self, ops: list[dict[str, Any]]) -> list[dict[str, Any]]:
+        """Contexts nobody refers to any more after their block has been left are dropped by the harness too (`forget`):
+        their memory is free for the next context, as with one short-lived context after the other."""
+        gone: set[int] = set()
+        for i, op in enumerate(ops):
+            if op["op"] != "exit" or self.rng.random() >= self.p_forget:
+                continue
+            c = op["c"]
+            later = ops[i + 1:]
+            if any(x.get("parent") == c for x in self.ctxs.values()):
+                continue
+            entered = next((n for n, o in enumerate(ops[:i]) if o["op"] == "enter" and o.get("c") == c), 0)
+            if any(o["op"] == "spawn" for o in ops[entered:i]):
+                continue        # a task spawned meanwhile may have inherited c as its current context
+            if any((o.get("c") == c and o["op"] != "state") or o.get("parent") == c or o.get("enterSub") == c for o in later):
+                continue
+            op["forget"] = True
+            gone.add(c)
+        return [o for n, o in enumerate(ops) if not (o["op"] == "state" and o.get("c") in gone and
+                                                     any(p["op"] == "exit" and p.get("forget") and p["c"] == o["c"] for p in ops[:n]))]
 
     def closing_ops(self) -> list[dict[str, Any]]:
         """Release every gate (twice: a failed generation may have been retried by a waiter),
@@ -541,9 +585,14 @@ def valid_ops(ops: list[dict[str, Any]]) -> bool:
     ctxs: dict[int, dict[str, Any]] = {}
     stacks: dict[int, list[int]] = {0: []}
     cur: dict[int, int | None] = {0: None}
+    forgotten: set[int] = set()
     for n, op in enumerate(ops):
         k = op["op"]
         t = op.get("t", 0)
+        if op.get("c") in forgotten or op.get("parent") in forgotten or op.get("enterSub") in forgotten:
+            return False
+        if k == "exit" and op.get("forget"):
+            forgotten.add(op["c"])
         if k not in ("finish", "cancelget", "resume") and t not in stacks:
             return False
         if k == "enter" and op.get("pre"):
